@@ -101,7 +101,8 @@ def check_flows(ctx, dct, wr, pr, rp, num=2):
             how = "identity"
             if not ok and isinstance(v, ast.IfExp):       # for a required column the same thing: csv writes None as the empty cell anyway
                 t = norm.nnf(v.test)
-                ok = t == ("cmp", "isnot", f"{rowp}.{col}", "None") and norm.U(v.body) == f"{rowp}.{col}" and isinstance(v.orelse, ast.Constant) and v.orelse.value == ""
+                ok = (t == ("cmp", "isnot", f"{rowp}.{col}", "None") and norm.U(v.body) == f"{rowp}.{col}" and isinstance(v.orelse, ast.Constant) and v.orelse.value == "") \
+                    or (t == ("cmp", "is", f"{rowp}.{col}", "None") and norm.U(v.orelse) == f"{rowp}.{col}" and isinstance(v.body, ast.Constant) and v.body.value == "")     # '' if x is None else x
                 how = "value if it is not None else ''"
             ctx.ob(num, "K6", f"the value written in column {col} is the row's own {col}" + (" (unset written as an empty cell, an explicit 0 kept)" if col in OPTIONAL else ""),
                    ok, wr, v, construct=f"write_row[{col}]", detail=f"{norm.U(v)} ({how})")
@@ -418,8 +419,16 @@ def check_writer_ids(ctx, num=2):
         lp = enclosing_for(c, wr.node)
         ida = c.args[1] if len(c.args) >= 2 else norm.kwarg(c, "pipeline_id")
         ok, d = False, f"id argument: {norm.U(ida) if ida is not None else None}"
-        if lp is not None and isinstance(ida, ast.Name):
-            defs = [n for n in ast.walk(lp) if isinstance(n, ast.Assign) and any(norm.is_name(t, ida.id) for t in n.targets)]
+        if lp is not None and isinstance(ida, (ast.Name, ast.JoinedStr)):
+            if isinstance(ida, ast.JoinedStr):
+                # the id is formed in the call itself
+                st_ = c
+                while not isinstance(st_, ast.stmt):
+                    st_ = parent(st_)
+                defs = [ast.copy_location(ast.Assign(targets=[ast.Name(id="<id>", ctx=ast.Store())], value=ida), st_)]
+                g.stmt_node[id(defs[0])] = g.stmt_node[id(st_)]
+            else:
+                defs = [n for n in ast.walk(lp) if isinstance(n, ast.Assign) and any(norm.is_name(t, ida.id) for t in n.targets)]
             if len(defs) == 1 and isinstance(defs[0].value, ast.JoinedStr):
                 names = [x.id for x in ast.walk(defs[0].value) if isinstance(x, ast.Name)]
                 cn = names[0] if len(names) == 1 else None
